@@ -4,5 +4,96 @@ From V.C02 Require Import Lang Model Spec Wf Proofs.
 Import ListNotations.
 Open Scope string_scope.
 
-Example placeholder : wf w_fallthrough = true.
+(* A program using every construct of the core: recursion, a default parameter, a static local,
+   while / do-while / for (two initialisers, two increments, `<=` fast path) / foreach with key,
+   switch with default, `continue`, `continue 2`, `break 3`, if / elseif / else, && and !, array
+   append, and a caller variable ($i) that a callee also uses.  PHP source:
+     function fact($n) {
+       if ($n <= 1) {
+         return 1;
+       }
+       return $n * fact($n - 1);
+     }
+     function counter($step = 2) {
+       static $n = 10;
+       $n = $n + $step;
+       return $n;
+     }
+     function scan($limit, $i = 0) {
+       $acc = 0;
+       while ($i < $limit) {
+         $i++;
+         if ($i == 2) {
+           continue;
+         }
+         foreach ([1, 2, 3] as $k => $v) {
+           switch ($v) {
+             case 2:
+               continue 2;
+             case 3:
+               break 3;
+             default:
+               $acc = $acc + $v;
+           }
+           echo "k" . $k;
+         }
+         echo "i" . $i;
+       }
+       return $acc;
+     }
+     $i = 100;
+     $arr = [];
+     echo "f=" . fact(5);
+     echo " c=" . counter();
+     echo "," . counter(5);
+     echo " s=" . scan(4);
+     for ($a = 0, $b = 10; $a <= 2; $a++, $b = $b - 1) {
+       $arr[] = $a;
+       if ($a == 0) {
+         echo " zero" . 0;
+       } elseif ($a == 1) {
+         echo " one" . $b;
+       } else {
+         echo " other" . $b;
+       }
+     }
+     $d = 0;
+     do {
+       $d++;
+       if ((($d > 1) && !($d == 5))) {
+         break;
+       }
+     } while ($d < 9);
+     foreach ($arr as $e) {
+       echo " e" . $e;
+     }
+     echo " i=" . $i;
+     echo " d=" . $d;
+ *)
+Definition ex_prog : prog :=
+  {| funcs := [{| fname := "fact"; fparams := [("n", None)]; fbody := (SSeq (SIf (EBin Le (EVar "n") (ELit (VInt 1))) (SReturn (Some (ELit (VInt 1)))) EINil SSkip) (SReturn (Some (EBin Mul (EVar "n") (ECall "fact" (ACons (EBin Sub (EVar "n") (ELit (VInt 1))) ANil)))))) |}; {| fname := "counter"; fparams := [("step", Some (VInt 2))]; fbody := (SSeq (SStatic "n" (VInt 10)) (SSeq (SExpr (EAssign "n" (EBin Add (EVar "n") (EVar "step")))) (SReturn (Some (EVar "n"))))) |}; {| fname := "scan"; fparams := [("limit", None); ("i", Some (VInt 0))]; fbody := (SSeq (SExpr (EAssign "acc" (ELit (VInt 0)))) (SSeq (SWhile (EBin Lt (EVar "i") (EVar "limit")) (SSeq (SExpr (EPostInc "i")) (SSeq (SIf (EBin Eq (EVar "i") (ELit (VInt 2))) (SContinue 1) EINil SSkip) (SSeq (SForeach (EArr (ACons (ELit (VInt 1)) (ACons (ELit (VInt 2)) (ACons (ELit (VInt 3)) ANil)))) (Some "k") "v" (SSeq (SSwitch (EVar "v") (CLCase (ELit (VInt 2)) (SContinue 2) (CLCase (ELit (VInt 3)) (SBreak 3) (CLDefault (SExpr (EAssign "acc" (EBin Add (EVar "acc") (EVar "v")))) CLNil)))) (SEcho (EBin Concat (ELit (VStr "k")) (EVar "k"))))) (SEcho (EBin Concat (ELit (VStr "i")) (EVar "i"))))))) (SReturn (Some (EVar "acc"))))) |}]; main := (SSeq (SExpr (EAssign "i" (ELit (VInt 100)))) (SSeq (SExpr (EAssign "arr" (EArr ANil))) (SSeq (SEcho (EBin Concat (ELit (VStr "f=")) (ECall "fact" (ACons (ELit (VInt 5)) ANil)))) (SSeq (SEcho (EBin Concat (ELit (VStr " c=")) (ECall "counter" ANil))) (SSeq (SEcho (EBin Concat (ELit (VStr ",")) (ECall "counter" (ACons (ELit (VInt 5)) ANil)))) (SSeq (SEcho (EBin Concat (ELit (VStr " s=")) (ECall "scan" (ACons (ELit (VInt 4)) ANil)))) (SSeq (SFor (ACons (EAssign "a" (ELit (VInt 0))) (ACons (EAssign "b" (ELit (VInt 10))) ANil)) (EBin Le (EVar "a") (ELit (VInt 2))) (ACons (EPostInc "a") (ACons (EAssign "b" (EBin Sub (EVar "b") (ELit (VInt 1)))) ANil)) (SSeq (SPush "arr" (EVar "a")) (SIf (EBin Eq (EVar "a") (ELit (VInt 0))) (SEcho (EBin Concat (ELit (VStr " zero")) (ELit (VInt 0)))) (EICons (EBin Eq (EVar "a") (ELit (VInt 1))) (SEcho (EBin Concat (ELit (VStr " one")) (EVar "b"))) EINil) (SEcho (EBin Concat (ELit (VStr " other")) (EVar "b")))))) (SSeq (SExpr (EAssign "d" (ELit (VInt 0)))) (SSeq (SDoWhile (SSeq (SExpr (EPostInc "d")) (SIf (EAnd (EBin Gt (EVar "d") (ELit (VInt 1))) (ENot (EBin Eq (EVar "d") (ELit (VInt 5))))) (SBreak 1) EINil SSkip)) (EBin Lt (EVar "d") (ELit (VInt 9)))) (SSeq (SForeach (EVar "arr") None "e" (SEcho (EBin Concat (ELit (VStr " e")) (EVar "e")))) (SSeq (SEcho (EBin Concat (ELit (VStr " i=")) (EVar "i"))) (SEcho (EBin Concat (ELit (VStr " d=")) (EVar "d")))))))))))))) |}.
+
+Example ex_wf : wf ex_prog = true.
+Proof. vm_compute. reflexivity. Qed.
+Example ex_clean : clean ex_prog = true.
+Proof. vm_compute. reflexivity. Qed.
+(* what the real interpreter prints for it (observed), is what both interpreters compute *)
+Example ex_impl : run_impl 200 ex_prog = ("f=120 c=12,17k0 s=1 zero0 one9 other8 e0 e1 e2 i=100 d=2", EndOk).
+Proof. vm_compute. reflexivity. Qed.
+Example ex_ref : run_ref 200 ex_prog = ("f=120 c=12,17k0 s=1 zero0 one9 other8 e0 e1 e2 i=100 d=2", EndOk).
+Proof. vm_compute. reflexivity. Qed.
+
+(* the statement-level theorem's hypotheses are satisfiable inside loops: `break 2` under two
+   enclosing constructs *)
+Example ex_scoped : scoped 2 (SIf (EBin Lt (EVar "a") (lit 3)) (SBreak 2) EINil (SContinue 1)) = true.
+Proof. reflexivity. Qed.
+Example ex_shorter : shorter [[0; 1]; [1]] [0; 0; 1].
+Proof. intros l [<-|[<-|[]]]; simpl; auto. Qed.
+
+(* fast-path hypotheses are satisfiable, and so is the fallback situation *)
+Example ex_fast_fires : fast_assign "" (EBin Add (EVar "a") (lit 2)) ([("a", VInt 5)], []) empty_glob = Some 7%Z.
+Proof. reflexivity. Qed.
+Example ex_fast_falls_back : fast_assign "" (EBin Add (EVar "a") (lit 2)) ([("a", VStr "x")], []) empty_glob = None.
+Proof. reflexivity. Qed.
+Example ex_le_fires : var_int_le "" (EVar "a") (lit 2) ([("a", VInt 5)], []) empty_glob = Some false.
 Proof. reflexivity. Qed.
